@@ -170,6 +170,39 @@ impl FieldDef {
 
 include!(concat!(env!("OUT_DIR"), "/fields_gen.rs"));
 
+/// Values with a meaning in the application domain (GNSS time periods, round decimal
+/// numbers, physical constants): code that special-cases "a full week" or "exactly 1.0" does
+/// so at these, and no boundary list contains them.  Returned as integer codes k = V / res
+/// (+-1) inside the field's representable range.
+pub fn domain_codes(f: &FieldDef) -> Vec<i128> {
+    const V: &[f64] = &[
+        604800.0, 302400.0, 86400.0, 43200.0, 3600.0, 1800.0, 900.0, 600.0, 300.0, 60.0, 30.0, 15.0, 10.0, 5.0, 2.0, 1.0, 0.5, 0.25, 0.1, 0.01, 0.001,
+        100.0, 1000.0, 1.0e4, 1.0e5, 1.0e6, 1.0e7, 1.0e8, 360.0, 180.0, 90.0, 45.0, 3.141592653589793, 6.283185307179586, 1.5707963267948966,
+        299792.458, 299792458.0, 2.99792458, 6378137.0, 6356752.3142, 6371000.0, 20200000.0, 26560000.0, 42164000.0, 1023.0, 1024.0, 4096.0, 65536.0, 255.0, 256.0, 127.0, 128.0,
+        604799.9, 86399.0, 7.0, 24.0, 365.0, 1461.0, 2000.0, 1980.0, 19.0, 37.0, 18.0,
+    ];
+    let (lo, hi) = f.k_range();
+    let res = f.res.unwrap_or(1.0);
+    let bias = f.bias.unwrap_or(0.0);
+    let mut out = Vec::new();
+    for &v in V {
+        for s in [1.0f64, -1.0] {
+            let k = ((s * v - bias) / res).round();
+            if k.is_finite() && k.abs() < 1.0e30 {
+                let k = k as i128;
+                for d in [-1i128, 0, 1] {
+                    if k + d >= lo && k + d <= hi {
+                        out.push(k + d);
+                    }
+                }
+            }
+        }
+    }
+    out.sort();
+    out.dedup();
+    out
+}
+
 pub fn by_id(id: &str) -> Option<&'static FieldDef> {
     FIELDS.iter().find(|f| f.id == id)
 }
